@@ -46,6 +46,13 @@ Theorem C02_args_nth : forall (A : Type) (d : A) vs s i, (i < List.length vs)%na
 Proof. exact @indexed_nth. Qed.
 Print Assumptions C02_args_nth.
 
+(* each read queries only addresses inside the requested range, on the addressed unit's handler *)
+Theorem C02_reads_in_range : forall (St : Type) (H : handler St) a units fr e k u addr,
+  In e (spec_calls H a units fr) -> ev_read e = Some (k, u, addr) ->
+  exists fc r s n, decode (f_pdu fr) = Valid fc r /\ kind_of r = k /\ f_dest fr = DUnit u /\ arg_of r = ARange s n /\ (s <= addr /\ addr < s + n).
+Proof. exact @reads_in_range. Qed.
+Print Assumptions C02_reads_in_range.
+
 (* no call, no change of application state *)
 Theorem C02_no_effect : forall (St : Type) (H : handler St) l a units fr, frame_ok l fr ->
   spec_calls H a units fr = [] -> units_of (handle_frame H l a units fr) = units.
